@@ -22,7 +22,8 @@ RULE = (
     "bytes zero-padded to 8; Decode of that frame must return (binding name, value).  Probe frames "
     "with non-matching (id, bus): unknown id, same id on another bus, bus differing in the last "
     "character, a proper prefix of the bus name - must be reported unknown.  Static and dynamic "
-    "answers must agree.  ASan+UBSan throughout (fixed-size bus/data arrays); on the thorough tier "
+    "answers must agree.  One long-lived wrapper object of each kind serves all commands of a batch "
+    "(matching frames first, then the same id on other buses).  ASan+UBSan throughout (fixed-size bus/data arrays); on the thorough tier "
     "every 8th batch also runs a sample, unsanitized, under valgrind memcheck.  distinct = (binding "
     "shape signature, bus length, value class, probe kind)."
 )
